@@ -30,6 +30,7 @@ PROPERTY_MODULES = {
     "C07": ["contracts.c07"],
     "C08": ["contracts.c08"],
     "C09": ["contracts.c09"],
+    "C10": ["contracts.c10"],
     "C11": ["contracts.c11"],
     "C12": ["contracts.c12"],
     "C13": ["contracts.c13"],
@@ -50,6 +51,7 @@ STANDINS = {
     "C05": [{"mirror": "corpus", "trait": "none"}, {"mirror": "generated", "trait": "none"}],
     "C08": [{"mirror": "corpus", "trait": "cleanup"}, {"mirror": "generated", "trait": "cleanup"}],
     "C09": [{"mirror": "corpus", "trait": "unused"}, {"mirror": "interface_positions"}, {"mirror": "remove_unused"}, {"mirror": "generated", "trait": "unused"}],
+    "C10": [{"mirror": "corpus", "trait": "duplication"}, {"mirror": "generated", "trait": "duplication"}],
     "C11": [{"mirror": "corpus", "trait": "symmetry"}, {"mirror": "generated", "trait": "symmetry"}],
     "C12": [{"mirror": "corpus", "trait": "minmax_chains"}, {"mirror": "generated", "trait": "minmax_chains"}],
     "C13": [{"mirror": "corpus", "trait": "sum_chains"}, {"mirror": "generated", "trait": "sum_chains"}],
@@ -252,6 +254,8 @@ def run(prop, args, seed, t0):
                 req = {"mirror": o["replay"]["mirror"], "model": mdl, "extra": o["replay"]}
                 res = native("replay_native.py", req)
                 rp["native_attempts"].append({"model": mdl, "result": res})
+                if "timed out" in str(res.get("error", "")):
+                    break  # the changed code does not come back in time: further candidates would only wait again
                 if res.get("confirmed") is True:
                     rp["native_request"] = req
                     rp["native_result"] = res
@@ -317,16 +321,17 @@ def run(prop, args, seed, t0):
         print(f"  {r['unit']:<40} {st:<12} {len(r['obligations'])-len(bad)}/{len(r['obligations'])} {r['wall_s']}s")
         for o in bad:
             print(f"      {o['verdict']}: {o['name']}  model={json.dumps(o.get('model'), default=str)[:240] if o.get('model') else None}")
-    if problems:
+    if violation_lines:
+        # a violation that was found stays a violation when some helper had a problem on the same (changed) tree
         for p in problems:
             print("CHECKER-PROBLEM:", p)
         for l in violation_lines:
             print(l)
-        return 3
-    if violation_lines:
-        for l in violation_lines:
-            print(l)
         return 1
+    if problems:
+        for p in problems:
+            print("CHECKER-PROBLEM:", p)
+        return 3
     if undecided:
         for u in undecided:
             print("UNDECIDED:", u if isinstance(u, str) else u["name"] + " (helper-level fact failed)")
